@@ -592,6 +592,14 @@ func checkC19(p *load.Program, r *kit.Report) {
 				d = kit.StaticCallee(c)
 			}
 			if d == nil || d.Blocks == nil {
+				// the de-duplication loop may be written (or expanded) in the function itself
+				fromLoop := kit.DependsOn(kit.RetOperand(ret, 0), func(v ssa.Value) bool {
+					c, ok := v.(*ssa.Call)
+					return ok && kit.CallID(c) == "builtin.append" && len(cycleOf(c.Block())) > 0
+				})
+				if why := dedupShape(p, f); why == "" && fromLoop {
+					continue
+				}
 				bad = "the locator is returned without passing through a de-duplication function"
 				continue
 			}
